@@ -22,6 +22,10 @@ type InviteObs struct {
 	Type int                 `json:"type"` // 0 request-to-join, 1 anyone-can-join
 	Perm list.AclPermissions `json:"perm"`
 	Key  string              `json:"key"` // short hex of the invite public key
+	// Wrapped: short hash of the read key wrapped under the invite key as the state holds it
+	// ("" for approval invites). Read through the verif hook VerifInviteWrappedKeys: otherwise
+	// only observable by attempting a join through the invite.
+	Wrapped string `json:"wrapped"`
 }
 
 // Observation is obs(list) of DESIGN 2.2: everything below is read through
@@ -91,6 +95,7 @@ func (w *World) ObserveState(st *list.AclState, head string) Observation {
 			o.Owners++
 		}
 	}
+	wrapped := list.VerifInviteWrappedKeys(st)
 	for _, inv := range st.Invites() {
 		k := ""
 		if inv.Key != nil {
@@ -100,7 +105,12 @@ func (w *World) ObserveState(st *list.AclState, head string) Observation {
 			}
 			k = hex.EncodeToString(s)
 		}
-		o.Invites[inv.Id] = InviteObs{Type: int(inv.Type), Perm: inv.Permissions, Key: k}
+		wk := ""
+		if b := wrapped[inv.Id]; len(b) > 0 {
+			h := sha256.Sum256(b)
+			wk = hex.EncodeToString(h[:4])
+		}
+		o.Invites[inv.Id] = InviteObs{Type: int(inv.Type), Perm: inv.Permissions, Key: k, Wrapped: wk}
 	}
 	if jr, err := st.JoinRecords(false); err == nil {
 		for _, r := range jr {
@@ -144,7 +154,7 @@ func (o Observation) Canon() string {
 	sb.WriteString("}inv{")
 	for _, k := range sortedKeys(o.Invites) {
 		i := o.Invites[k]
-		fmt.Fprintf(&sb, "%s:%d/%s/%s,", k, i.Type, PermName(i.Perm), i.Key)
+		fmt.Fprintf(&sb, "%s:%d/%s/%s/%s,", k, i.Type, PermName(i.Perm), i.Key, i.Wrapped)
 	}
 	sb.WriteString("}join{")
 	for _, k := range sortedKeys(o.JoinReq) {
